@@ -20,7 +20,7 @@ func init() {
 			{ID: "C15.fallback", Floor: 3, Run: c15Fallback, Doc: "addTLS returns GetTLSSecretPath's file on its nil-error edge, else converter.defaultCrt; defaultCrt is written only by readDefaultCertificate (secret or fake)."},
 			{ID: "C15.malformed", Floor: 2, Run: c15Malformed, Doc: "GetTLSSecretPath returns an error when the PEM file name is empty or the certificate did not parse, and on every error of resolution and read."},
 			{ID: "C15.permission-bit", Floor: 8, Run: c09BitWiring, Doc: "Shared with C09: the certificate getter passes CrossNamespaceSecretCertificate and the reader's default namespace."},
-			{ID: "C15.reader-linked", Floor: 5, Run: c01AcquireTracked, Doc: "Shared with C01: the Ingress declaring spec.tls for a host is linked to the hostname (secret -> ingress -> host), and addTLS passes the Ingress as tracking reference."},
+			{ID: "C15.reader-linked", Floor: 5, Run: c01AcquireTrackedBase, Doc: "Shared with C01: the Ingress declaring spec.tls for a host is linked to the hostname (secret -> ingress -> host), and addTLS passes the Ingress as tracking reference."},
 			{ID: "C15.track-first", Floor: 4, Run: c01CacheHonours, Doc: "Shared with C01: the getter records the link before the read and on its error exits."},
 			{ID: "C15.crt-list", Floor: 3, Run: c15CrtList, Doc: "WriteFrontendMaps: the first crt-list entry is DefaultCrtFile + \" !*\"; a host line is appended iff the host's file differs from the default or a TLS option is set; the line names TLSFilename (or the default when empty)."},
 			{ID: "C15.rotate", Floor: 1, Run: c15Rotate, Doc: "checkHostPair: execUpdateCert runs iff HasTLS && hash differs && file name equal."},
